@@ -225,7 +225,10 @@ class Random(HypPart):
     def expand(self, drawn):
         t = Tape(drawn)
         while not t.exhausted():
-            pool, text = pools.any_text(t, 300)
+            if t.chance(10):
+                pool, text = 'G5-nested', pools.nested_pump(t)       # trees far deeper than ordinary documents
+            else:
+                pool, text = pools.any_text(t, 300)
             for tokens in TOKEN_SETS if t.chance(40) else [t.choice(TOKEN_SETS)]:
                 yield {'text': text, 'tokens': tokens, 'pool': pool}
 
